@@ -91,6 +91,21 @@ P_HeaderRG(G, wrg, prefix, stem, inrgids, out) ==
     \A g \in G : FileName(stem, g) \in DOMAIN out =>
         out[FileName(stem, g)].rgids = (IF wrg THEN <<RGOf(prefix, g)>> ELSE inrgids)
 
+(* ---- split_bam_by_cluster: rows [s, c] of the annotation file; the group of cluster c is c \o ".sorted" --------------------- *)
+SplitRel(rows) == { <<rows[i].s, rows[i].c \o ".sorted">> : i \in DOMAIN rows }
+SplitGroups(rows) == { rows[i].c \o ".sorted" : i \in DOMAIN rows }
+SplitDup(rows) == \E i, j \in DOMAIN rows : i # j /\ rows[i].s = rows[j].s          \* a sample on two lines: refused
+(* the routing key of a record: its tag value, "Missing" without the tag; records flagged duplicate (and, in the reading where   *)
+(* -mapq filters, records below the threshold: lowq) are not eligible and are represented with the key ""                       *)
+SplitKey(r, filter) == IF r.dup \/ (filter /\ r.lowq) THEN "" ELSE IF r.sm = "" THEN "Missing" ELSE r.sm
+SplitInp(inp, filter) == [i \in DOMAIN inp |-> [inp[i] EXCEPT !.sm = SplitKey(inp[i], filter)]]
+SortKeyLE(a, b) == LET ta == IF a.tid < 0 THEN 1000000 ELSE a.tid  tb == IF b.tid < 0 THEN 1000000 ELSE b.tid
+                   IN ta < tb \/ (ta = tb /\ (ta = 1000000 \/ a.pos <= b.pos))
+(* every file is coordinate sorted (contig index, position; records without contig last; ties in any order) *)
+P_Sorted(inp, out) ==
+    \A f \in DOMAIN out : \A k1, k2 \in DOMAIN out[f].recs :
+        k1 < k2 => \A i1 \in IdxOfId(inp, out[f].recs[k1].id), i2 \in IdxOfId(inp, out[f].recs[k2].id) : SortKeyLE(inp[i1], inp[i2])
+
 (* the one result the clauses allow (used by the design model's step invariant and as the final catch-all *)
 (* of the trace spec): for every listed group the selected-and-taken records of its samples, in order      *)
 ExpectedRecs(A, inp, head, wrg, prefix, g) ==
